@@ -298,13 +298,13 @@ def impl_outputs(mod, lines, jobs):
     if jobs <= 1 or len(lines) < 2000 or not getattr(mod, "PARALLEL", True):
         return [call_impl(mod, ln) for ln in lines]
     import multiprocessing as mp
-    chunks = [lines[i::jobs] for i in range(jobs)]
+    # contiguous blocks: consecutive requests (histories over one cached library object) stay in one process
+    n = len(lines)
+    bounds = [n * k // jobs for k in range(jobs + 1)]
+    chunks = [lines[bounds[k]:bounds[k + 1]] for k in range(jobs)]
     with mp.get_context("fork").Pool(jobs) as pool:
         res = pool.map(_pool_worker, [(mod.__name__, c) for c in chunks])
-    out = [None] * len(lines)
-    for j, r in enumerate(res):
-        out[j::jobs] = r
-    return out
+    return [o for r in res for o in r]
 
 
 def run_property(pid, tier, seed, replay=None):
